@@ -1,4 +1,4 @@
-import ESV.Comp.Lemmas
+import ESV.Comp.Vocab
 import ESV.Beh.Machine
 /-
 Semantics of labelled code, the compiler's intermediate form (DESIGN §3.3), as a labelled transition system in the
